@@ -45,7 +45,7 @@ class _View:
         return f"memoryview({self.data!r})"
 
 
-INST += [_View(b"twelve"), _View(b"12"), _View(b"1.5")]
+INST += [_View(b"twelve"), _View(b"12"), _View(b"1.5"), {"x": "1", "y": "2"}, '{"x": "3", "y": 4}']
 
 
 def _mat(x):
@@ -200,7 +200,8 @@ def tuples(tier, seed):
         k = (seed * 36) % len(pairs)
         sel = (pairs + pairs)[k:k + 36]
         # the classic traps are always in
-        for must in ((0, 1), (1, 0), (3, 1), (1, 3), (4, 5), (5, 4), (2, 0), (0, 2)):
+        # ... and a structured member whose field types are themselves members declared after it
+        for must in ((0, 1), (1, 0), (3, 1), (1, 3), (4, 5), (5, 4), (2, 0), (0, 2), (9, 0), (0, 9), (9, 1)):
             if must not in sel:
                 sel.append(must)
     else:
